@@ -1,7 +1,8 @@
 CONFIG = dict(
     id="C14",
     engine="bubble-timer",
-    technique="Lean 4 invariant proof over all histories of a small-step model of utils/timer.Mgr (+ callback scripts) "
+    technique="Lean 4 invariant proof over all histories (and, for liveness, all fair infinite schedules) of a small-step model of "
+              "utils/timer.Mgr (+ callback scripts) and of the service-level model of actorex/service.Service's check timer, which refines it "
               "+ differential correspondence with the real timer.Mgr / StandardRunService under a virtual clock (testing/synctest) "
               "+ the property predicate evaluated on the implementation's own callback log",
     level_text="Machine-checked proof in Lean 4, by an inductive invariant over every history of primitive steps (create, cancel, time passing, "
@@ -12,17 +13,38 @@ CONFIG = dict(
                "only by the consumer's Do, and a panic changes nothing else. The model is tied to the Go code on every run: the real timer.Mgr is "
                "driven inside a synctest bubble by the harness acting as the queue consumer (and, in a fifth of the cases, by a real StandardRunService "
                "whose loop goroutine must be the one running every callback); the model must accept every observation (only the order of simultaneous "
-               "expiries is read off the implementation) and the property predicate is evaluated on the implementation's callback log.",
+               "expiries is read off the implementation) and the property predicate is evaluated on the implementation's callback log. "
+               "Liveness is proved as inevitability, not only as possibility: with a consumer that receives in channel order (doNext 0 only) an object at queue "
+               "position k has had its callback entered or has been cancelled once k+1 elements were taken, in every continuation (fifo_bounded_wait); "
+               "in every fair infinite schedule (consumer, running callback, expiry goroutine of the timer and the clock keep getting turns) a repeating timer "
+               "that is never cancelled on a manager that is never stopped fires infinitely often and a one-shot ends up having fired exactly once "
+               "(repeating_fires_infinitely_often, oneshot_fires_exactly_once_eventually; fair schedule exhibited). The Stop exception is a theorem "
+               "(nothing_new_after_stop), the two-statement After/AddTimer (doLater, then timers.Store) is shown equivalent to the atomic model step "
+               "(create_gap_harmless), and the single-owner assumption is shown to be needed (owner_assumption_needed). The timer use of "
+               "actorex/service.Service (tryStartCheckTimer / checkExpired / freeTimer) is a model of its own (Model/TimerSvc.lean) whose every history is a "
+               "history of the manager model (svc_refines_timer); proved for all service histories: the manager holds no timer but the one the service owns, "
+               "an outstanding request always has its live 1 s check timer, the idle tick frees it, a freed timer never fires again. The `svc` run compares "
+               "the real Service with exactly this model (every driver step of a service-level case is a TimerSvc.svcStep).",
     level_note="Partial with respect to the Go runtime: time.AfterFunc/Timer.Stop semantics (function runs once, on another goroutine, not before the "
-               "duration; virtualised by testing/synctest), FIFO wake-up of senders blocked on the full queue channel, and atomicity of the unsynchronised "
-               "Obj.Canceled / Mgr.running flags are assumptions of the model. The theorems are about the model; the correspondence run ties it to "
-               "the code on sampled histories only. Id wrap-around of SerialIdService64 (2^64) is not modelled.",
+               "duration; virtualised by testing/synctest), FIFO wake-up of senders blocked on the full queue channel (the model's queue is an unbounded "
+               "list: its elements beyond 999 are the blocked senders), and atomicity of the unsynchronised Obj.Canceled / Mgr.running flags are "
+               "assumptions of the model. Fairness (everybody keeps getting turns) is a hypothesis of the two inevitability theorems: it is what the Go "
+               "scheduler and callbacks that return provide. 'Only on the draining goroutine' is a behavioural tie (goroutine identity observed on the real "
+               "run service), the model has no goroutines. The theorems are about the models; the correspondence run ties them to the code on sampled "
+               "histories only. Id wrap-around of SerialIdService64 (2^64) is not modelled; user callbacks of timed-out requests (Service.checkExpired "
+               "calling wait.CB) are empty in the service-level model.",
     lean_targets=["Cell2v.Props.C14", "modeld_c14"],
     driver="modeld_c14",
     driver_root="Cell2v.Driver.C14",
     audit="Audit/C14.lean",
     required_theorems=["no_callback_after_cancel", "oneshot_at_most_once", "oneshot_exactly_once_if_drained", "repeating_rearms",
-                       "repeating_fires_again", "never_early", "args_preserved", "callbacks_only_from_do", "panic_isolated"],
+                       "repeating_fires_again", "never_early", "args_preserved", "callbacks_only_from_do", "panic_isolated",
+                       "fifo_bounded_wait", "repeating_fires_again_fifo", "oneshot_fires_fifo", "expiry_enqueues",
+                       "nothing_new_after_stop", "create_gap_harmless", "owner_assumption_needed",
+                       "svc_refines_timer", "svc_holds_only_owned_timer", "svc_request_keeps_check_timer",
+                       "svc_idle_tick_frees", "svc_freed_timer_never_fires",
+                       "repeating_fires_infinitely_often", "oneshot_fires_exactly_once_eventually", "schedule_prefix_is_history",
+                       "foreign_creator_leaks_entry"],
     harness_pkg="./c14",
     mode="accept",
     reset_prefix="reset",
@@ -53,11 +75,12 @@ CONFIG = dict(
          "(actor + ScheDisp run service) issues requests to a recording peer, gets them answered or lets them time out, idles across several virtual "
          "seconds and gets busy again; observed per step: callback log of every timer object of the service's manager, ids held in Mgr.timers, "
          "Service.timerCheckExpired, request-table size (spec: a check timer the service gave up never fires again and is gone from the manager; "
-         "at most the one owned timer is alive). A case is non-trivial when the observation "
+         "at most the one owned timer is alive); the model side of this run is the Lean service model TimerSvc (req / resp / tick / expire / advance). A case is non-trivial when the observation "
          "contains a callback log or a non-empty queue; distinct = distinct (op, observation) pairs",
     trusted_base=[
         "Lean 4.33.0 kernel; axioms of every property theorem audited on each run (allowed: propext, Classical.choice, Quot.sound)",
-        "hand-written model lean/Cell2v/Model/Timer.lean tied to the Go code by the acceptance run of this check (harness/c14 + modeld_c14 accept)",
+        "hand-written models lean/Cell2v/Model/Timer.lean and lean/Cell2v/Model/TimerSvc.lean (service level; refines the former by theorem) tied to the "
+        "Go code by the acceptance runs of this check (harness/c14 + modeld_c14 accept; run `svc` drives a real actorex/service.Service)",
         "go1.26.8 testing/synctest: virtual clock, quiescence detection (every op: issue, synctest.Wait, observe)",
         "time.AfterFunc runs its function once, on another goroutine, not before the duration; after Cancel either Timer.Stop prevents the run "
         "or the closure's own Canceled test drops the object (same model state); an expiry goroutine that overtakes a Cancel issued later in the "
@@ -66,7 +89,11 @@ CONFIG = dict(
         "harness canonicalisation: callback log tokens (id, virtual ms, args), queue length, goroutine identity reduced to loop=0/1",
     ],
     assumptions=[
-        "one owner goroutine creates, cancels and drains (the documented use: StandardRunService loop); other goroutines only run the AfterFunc closure",
+        "one owner goroutine creates, cancels and drains (the documented use: StandardRunService loop); other goroutines only run the AfterFunc closure "
+        "(theorem owner_assumption_needed: a Cancel from another goroutine between Do's head check and the callback is followed by the callback; "
+        "theorem foreign_creator_leaks_entry + harness/c14/foreign_creator_test.go: a creator on another goroutine can leave a finished one-shot in "
+        "Mgr.timers for ever - no clause of the property is violated, the entry leaks)",
+        "fair scheduling for the inevitability theorems: the consumer keeps receiving, callbacks return, expiry goroutines run, the clock advances",
         "fewer than 2^64 timers per manager (id allocator does not wrap)",
         "callbacks do not block and do not advance the clock themselves in the harness (the model allows time to pass during a callback)",
     ],
